@@ -649,6 +649,17 @@ def serveStep (x : SrvSt) : M (Step SrvSt (Sock × List Req)) :=
 /-- the `while` loop of `HttpServer::serve`: the requests handed to the application, in order, and the socket at its exit -/
 def serveLoop (s : Sock) : M (Sock × List Req) := iterate serveStep (s.inp.length + 1) ⟨s, []⟩
 
+/-- the loop once more, recording next to each request handed to the application how many bytes of the stream were
+    still unread at that moment (`request.socket().available()` in the handler; `respond` reads nothing): where each
+    dispatched request ended.  Built on `serveStep` itself; observed by the correspondence check only (`at=`), since
+    `closeBehind` hides where the loop stopped. -/
+def serveStepAt (x : SrvSt × List Nat) : M (Step (SrvSt × List Nat) (Sock × List Req × List Nat)) := do
+  match ← serveStep x.1 with
+  | .done r => pure (.done (r.1, r.2, (if r.2.length > x.1.acc.length then r.1.inp.length :: x.2 else x.2).reverse))
+  | .next y => pure (.next (y, if y.acc.length > x.1.acc.length then y.s.inp.length :: x.2 else x.2))
+
+def serveLoopAt (s : Sock) : M (Sock × List Req × List Nat) := iterate serveStepAt (s.inp.length + 1) (⟨s, []⟩, [])
+
 /-- `closeBehind(client)` (Http.cpp, C10's 7f6f841), with which `HttpServer::serve` ends every connection: nothing on a
     socket the reader has closed already; else the send side is shut down (`out` is complete), what the peer still
     sent is read and dropped until its end (the peer has closed its side: at once), and the socket is closed -/
